@@ -218,6 +218,25 @@ def record_and_layout(draw, max_payload=3000, allow_encrypted=True, min_payload=
         payload = bytes(buf)
     rec = {'eflr': draw(st.booleans()), 'type': draw(st.one_of(st.integers(0, 11), st.integers(0, 255))),
            'payload': payload, 'encrypted': encrypted}
+    if encrypted and len(layout) >= 3 and draw(st.integers(0, 2)) == 0:
+        # every attribute bit set in the segments of an encrypted record (header bytes .. .. FF tt in the middle segments):
+        # explicit record, packet, checksum, trailing length and padding all present; a small type code
+        rec['eflr'] = True
+        rec['type'] = draw(st.sampled_from([0, 1, 1, 2, 3, 4, 5, 255]))
+        buf, ofs, new_layout = bytearray(payload), 0, []
+        for seg in layout:
+            base = SEG_HEAD + seg['n'] + 4
+            pad = max(seg['pad'], 2 if base % 2 == 0 else 1)
+            if (base + pad) % 2:
+                pad += 1
+            if seg['n'] >= 4 and base + pad <= SEG_MAX and pad <= 255:
+                seg = dict(seg, checksum=True, trailing=True, pad=pad, enc_packet=True)
+                if not (buf[ofs] << 8 | buf[ofs + 1]) or not layout[0].get('enc_packet'):
+                    buf[ofs:ofs + 4] = struct.pack('>HH', 4, 440)
+            new_layout.append(seg)
+            ofs += seg['n']
+        layout = new_layout
+        rec['payload'] = bytes(buf)
     return rec, layout
 
 
